@@ -32,6 +32,12 @@ def try_replay(prop, o, path, repo, env):
     def sub(mm):
         k = mm.group(1)
         if k not in model:
+            # len(x) of a slice-typed entry value can be read off the slice header (mk_slice array offset len cap)
+            mlen = re.fullmatch(r"len\((\w+)\)", k)
+            if mlen and mlen.group(1) in model:
+                mh = re.fullmatch(r"\(mk_slice (-?\d+) (-?\d+) (-?\d+) (-?\d+)\)", model[mlen.group(1)].strip())
+                if mh:
+                    return mh.group(3)
             missing.append(k)
             return "0"
         v = model[k]
